@@ -519,7 +519,10 @@ public:
     status wst{}, rst{};
 
     std::string name() override { return label; }
-    int nthreads() override { return nworkers + 2; }
+    int nthreads() override {
+        nworkers = cfg.third ? 3 : 2; // called before setup()
+        return nworkers + 2;
+    }
     int horizon(int tid) override {
         if (tid == nworkers) return cfg.ehz;
         if (tid == nworkers + 1) return cfg.ghz;
@@ -723,8 +726,7 @@ public:
 
     void finish(ykmc::ExecResult& r) override {
         std::ostringstream d;
-        d << int(wst) << "|" << int(rst) << "|" << (reader_got ? 1 : 0) << "|e" << epoch_management::epoch_.load() << "g" << garbage_collection::gc_epoch_.load()
-          << "|f" << ykalloc::total_frees();
+        d << int(wst) << "|" << int(rst) << "|" << (reader_got ? 1 : 0) << "|e" << epoch_management::epoch_.load() << "g" << garbage_collection::gc_epoch_.load();
         r.outcome = d.str();
         if (!problem.empty()) {
             r.verdict = ykmc::V_VIOLATION;
@@ -768,7 +770,7 @@ static void scenarios(std::vector<hm::Scenario>& out) {
             sc.sigclass = std::string("epoch:") + wn[p.w] + "-vs-" + rn[p.r];
             sc.bound_quick = 2;
             sc.bound_thorough = (p.quick && third == 0) ? 3 : 2;
-            sc.quick = p.quick && third == 0;
+            sc.quick = p.quick && (third == 0 || (p.w == W_REMOVE && p.r == R_GET));
             sc.cls_mask = (1u << ykmc::C_SESSION) | (1u << ykmc::C_EPOCH) | (1u << ykmc::C_GCQ) | (1u << ykmc::C_STOP) | (1u << ykmc::C_HARNESS);
             Cfg c;
             c.w = p.w;
